@@ -188,7 +188,11 @@ func (n *ThreadedNewsYAML) DeleteArticle(newsPath []string, articleID uint32, _ 
 
 	catName := newsPath[len(newsPath)-1]
 
-	cat := cats[catName]
+	cat, ok := cats[catName]
+	if !ok {
+		// Assigning below would create (and persist) a nameless item under a path that names no category.
+		return fmt.Errorf("news category not found")
+	}
 	delete(cat.Articles, articleID)
 	cats[catName] = cat
 
